@@ -17,8 +17,9 @@ META = dict(
     technique="bounded exhaustive enumeration of aggregate declarations (all field sequences up to a depth over a "
               "field-kind alphabet) with gcc as layout oracle",
     text="Every struct/union built from all field sequences up to depth 3 (thorough 4) over a 25-kind alphabet, all "
-         "ordered pairs over a ~150-kind alphabet covering every integer type and bitfield width class, x packing x "
-         "flexible tails is declared in cffi and compiled by gcc; sizeof/alignof/offsetof and the storage bits of "
+         "ordered pairs over a ~185-kind alphabet covering every integer type and bitfield width class, enum / wide-character / "
+         "complex / <stdint.h> field types, arrays of aggregates and fields that mention the enclosing aggregate itself, x "
+         "packing (1..16) x flexible tails of six element types is declared in cffi and compiled by gcc; sizeof/alignof/offsetof and the storage bits of "
          "every bitfield are compared.  The layout loop only branches on comparisons the alphabet straddles, so this "
          "decides the property up to the stated depth.",
     note="gcc 12 on this machine (x86-64 SysV) is the authority; MSVC/ARM bitfield branches are compiled out and not judged")
